@@ -631,9 +631,9 @@ void Walker::step(const Op& o, size_t index) {
 	case OP_SWITCH: if (S.inst[1] && !S.replica) S.cur ^= 1; break;
 	case OP_REPLAY: { // an arbitrary (possibly over-long) history replayed onto this instance: no guards, must stay well-formed
 		if (S.replica) break;
-		std::vector<Instance::Transition> v; const int n = 1 + o.a2 % 48;
-		for (int k = 0; k < n; ++k) { const uint32_t h = mix(o.a0 * 256u + o.a1, (uint32_t) k + 5u); int t = (int) (h % 7), d = (int) ((h >> 4) % HV_NS); saneRequest(t, d); v.push_back(Instance::Transition{(StateID) d, (TransitionType) t}); }
-		{ bool anyTransition = false; for (auto& t : v) if (t.type != TransitionType::SCHEDULE) anyTransition = true; if (!anyTransition) v[0] = Instance::Transition{(StateID) (1 % HV_NS), TransitionType::CHANGE}; } // a recorded history always holds a transition
+		std::vector<M::Transition> v; const int n = 1 + o.a2 % 48;
+		for (int k = 0; k < n; ++k) { const uint32_t h = mix(o.a0 * 256u + o.a1, (uint32_t) k + 5u); int t = (int) (h % 7), d = (int) ((h >> 4) % HV_NS); saneRequest(t, d); v.push_back(M::Transition{(StateID) d, (TransitionType) t}); }
+		{ bool anyTransition = false; for (auto& t : v) if (t.type != TransitionType::SCHEDULE) anyTransition = true; if (!anyTransition) v[0] = M::Transition{(StateID) (1 % HV_NS), TransitionType::CHANGE}; } // a recorded history always holds a transition
 		in.overlongReplay = n > HV_COMPO_COUNT * HV_SUBST_LIMIT;
 		bool ok = false; LIB(ok = f.replayTransitions(&v[0], (hfsm2::Short) n)); (void) ok;
 		afterCall(in, what, true); in.overlongReplay = false;
